@@ -172,6 +172,11 @@ def linear_cases(tier):
             cases.append(VCase("nn.functional.linear", {"op": "nn.functional.linear", "x_shape": xs, "in": 3, "out": 2, "bias": bias},
                                leaves, lambda T, K, bias=bias: f.linear(T["x"], T["w"], T["b"] if bias else None), functions=fns))
 
+    # a bias that is not a vector (per sample, per position) broadcast against the product, the input tracked or plain data
+    for xs, bs, xflag in [((2, 3), (2, 2), True), ((2, 3), (2, 2), False), ((2, 3), (1, 2), False), ((2, 2, 3), (2, 2), False), ((2, 3), (2, 1), False)]:
+        cases.append(VCase("nn.functional.linear", {"op": "nn.functional.linear", "x_shape": xs, "bias_shape": bs, "x_requires_grad": xflag, "in": 3, "out": 2, "bias": True},
+                           [Leaf("x", xs, "any", xflag), Leaf("w", (2, 3)), Leaf("b", bs)], lambda T, K: f.linear(T["x"], T["w"], T["b"]), functions=fns))
+
     def layer(T, K, cls, bias, I, O):
         from synapgrad.nn.modules import Parameter
         L = cls(I, bias=bias) if cls is m.Neuron else cls(I, O, bias=bias)
@@ -544,10 +549,30 @@ def zero_extent_cases(tier):
     return cs
 
 
+def same_operand_cases(tier):
+    """ONE tensor in two operand slots of a building block (a Gram matrix linear(f, f), a signal correlated with itself, a loss of a tensor with itself, scale and shift
+    tied): the tensor receives the SUM of the slots' vector-Jacobian products"""
+    f = NF()
+    cs = []
+
+    def add(name, leaves, build, **key):
+        cs.append(VCase(name, dict(key, op=name, same_tensor_in_two_slots=True), leaves, build))
+    add("nn.functional.linear", [Leaf("a", (2, 3))], lambda T, K: f.linear(T["a"], T["a"]), slots="x, weight")
+    add("nn.functional.linear", [Leaf("a", (2, 2)), Leaf("b", (2,))], lambda T, K: f.linear(T["a"], T["a"], T["b"]), slots="x, weight (with bias)")
+    add("nn.functional.linear", [Leaf("a", (2, 2))], lambda T, K: f.linear(T["a"], T["a"], T["a"]), slots="x, weight, bias")
+    add("nn.functional.linear", [Leaf("x", (3, 2)), Leaf("a", (2, 2))], lambda T, K: f.linear(T["x"], T["a"], T["a"]), slots="weight, bias")
+    add("nn.functional.conv1d", [Leaf("a", (2, 2, 3))], lambda T, K: f.conv1d(T["a"], T["a"]), slots="x, weight")
+    add("nn.functional.conv1d", [Leaf("a", (2, 2, 2))], lambda T, K: f.conv1d(T["a"], T["a"], None, 1, 1), slots="x, weight (padding 1)")
+    add("nn.functional.conv2d", [Leaf("a", (2, 2, 2, 2))], lambda T, K: f.conv2d(T["a"], T["a"]), slots="x, weight")
+    add("nn.functional.mse_loss", [Leaf("a", (2, 2))], lambda T, K: f.mse_loss(T["a"] * 2.0, T["a"]), slots="prediction derived from the target")
+    add("nn.functional.batch_norm", [Leaf("x", (3, 2)), Leaf("g", (2,))], lambda T, K: f.batch_norm(T["x"], T["g"], T["g"]), slots="weight, bias")
+    return cs
+
+
 def all_cases(tier="quick"):
     from .tensor_ops import layout_variants
     cases = []
-    for g in (activation_cases, loss_cases, linear_cases, conv_cases, pool_cases, fold_cases, batchnorm_cases, batchnorm_reuse_cases, dropout_cases, zero_extent_cases):
+    for g in (activation_cases, loss_cases, linear_cases, conv_cases, pool_cases, fold_cases, batchnorm_cases, batchnorm_reuse_cases, dropout_cases, zero_extent_cases, same_operand_cases):
         cases.extend(g(tier))
     base = list(cases)
     cases.extend(flag_variants(base, tier))
